@@ -513,7 +513,35 @@ def check_c16(pid, tier, seed, rep):
     return cov
 
 
-CHECKS = {"C09": check_c09, "C10": check_c10, "C12": check_c12, "C15": check_c15, "C16": check_c16}
+def check_c11(pid, tier, seed, rep):
+    """Determinism: order-independence theorems + repeated/stale/truncated-output experiments + examples regenerated."""
+    import stage_det
+    cov = prove(pid, rep)
+    R = stage_det.stage(seed, tier)
+    nviol = 0
+    runs = 0
+    for e in R["experiments"]:
+        runs += e["runs"]
+        if e["problems"] and nviol < 4:
+            nviol += 1
+            rep.violation("exp-%s" % e["name"], dict(package=e["name"], files=e["files"], problems=e["problems"][:6],
+                                                    how="tools/stage_det.py: generate in a fresh directory, then again under the named condition; compare sha256"),
+                          "%s: %s" % (e["name"], e["problems"][0][:400].replace("\n", " | ")))
+    for p_ in R["example_problems"][:3]:
+        nviol += 1
+        rep.violation("example-%d" % nviol, dict(problem=p_), p_[:300].replace("\n", " | "))
+    if R["goroutines"]:
+        rep.violation("goroutines", dict(statements=R["goroutines"], theorem="Properties/C11.v assumes the generator is sequential (only map order varies)"),
+                      "the generator now starts goroutines: %s" % R["goroutines"][:2], True)
+    cov.update(evaluations=runs, programs=len(R["experiments"]), disagreements_checked=runs, examples_regenerated=R["examples_checked"],
+               samples=[dict(package=e["name"], files=e["files"], runs=e["runs"]) for e in R["experiments"][:4]],
+               input_distribution=dict(conditions=["rerun over previous output x GOMAXPROCS 1,2,4,8,16", "fresh x GOMAXPROCS 1,16,3", "stale output of another revision", "empty file", "8 truncation points"],
+                                       corpus=["twoimports (two packages named template)", "stalepkg (stale output imports a package whose name the locals need)"]),
+               trusted_base=TRUSTED)
+    return cov
+
+
+CHECKS = {"C11": check_c11, "C09": check_c09, "C10": check_c10, "C12": check_c12, "C15": check_c15, "C16": check_c16}
 for _p in ("C01", "C02", "C03", "C05", "C06", "C07", "C08"):
     CHECKS[_p] = check_layer_ab
 
